@@ -364,35 +364,35 @@ def rule_r6_aggregation(ctx: Ctx) -> None:
 
 # ---------------------------------------------------------------------------------------------------- R7
 def rule_r7_union_extent(ctx: Ctx) -> None:
+    """constructor outcomes over abstract arguments (C05.build_model): which unions / delimited wrappers come into being"""
+    from ..absint import make_obj
+    from ..codec import isa_of
+    from ..fold import Sym, Unfoldable as _Unf
+    from . import c05 as M
+    from .c15 import _prop
+
     repo = ctx.repo
     ctx.rule("C05.R7", "UnionType needs >= 2 variants; DelimitedType extent accepted iff multiple of the alignment and >= the inner type's extent", min_instances=3)
     u = ctx.cls(SER + "_composite.UnionType")
     init = u.methods.get("__init__")
-    if init is None:
-        raise AnalysisError("UnionType.__init__ missing")
-    stmts, chain = flatten_init(repo, u, inline_props=False, node_of=ctx.inl)
-    # only the union's own part matters for the arity; paths of the own constructor
-    paths = paths_of(init.node)
-    res = evaluate_region(
-        paths,
-        [{"n": n} for n in range(0, 6)],
-        lambda cond: mentions(cond, ["self.number_of_variants"]) or "len(self.fields)" in norm(cond) if not isinstance(cond, tuple) else False,
-        lambda v: Folder({"self.number_of_variants": v["n"]}, repo, init.module, u, lambda e, f: v["n"] if norm(e) == "len(self.fields)" else NotImplemented),
-        None,
-        key=lambda v: v["n"],
-    )
-    bad = [{"variants": n, "found": acc} for n, acc in res.accepted.items() if acc != (n >= spec.UNION_MIN_VARIANTS)]
-    ctx.count(6)
-    ctx.check(not bad, init.short, "variant count region", "a union must have at least two variants", init.where(), bad)
-    nonide = sorted({ex for n, acc in res.accepted.items() if not acc for ex in res.raised[n] if not _raises_ide(ctx, init, ast.parse(ex, mode="eval").body)})
-    ctx.check(not nonide, init.short, "rejection class", "rejections must be InvalidDefinitionError subclasses", init.where(), nonide)
-    from ..regions import trivial_property_expr
+    where_u = init.where() if init else u.module.relpath
+    rejected: Set[str] = set()
+    bad = []
+    for n in range(0, 6):
+        for n_const in (0, 2):
+            attrs = [M.attribute_sym(ctx, "Field", "f%d" % i) for i in range(n)] + [M.attribute_sym(ctx, "Constant", "K%d" % i) for i in range(n_const)]
+            o = M.structure(ctx, attributes=attrs, kind="UnionType")
+            acc = not isinstance(o, str)
+            ctx.count()
+            if not acc:
+                rejected.add(o)
+            if acc != (n >= spec.UNION_MIN_VARIANTS):
+                bad.append({"variants": n, "constants": n_const, "found": "accepted" if acc else "rejected (%s)" % o})
+    ctx.check(not bad, u.short + ".__init__", "variant count region", "a union must have at least two variants (constants are not variants)", where_u, bad)
+    nonide = sorted(x for x in rejected if not M._ide_name(ctx, x))
+    ctx.check(not nonide, u.short + ".__init__", "rejection class", "rejections must be InvalidDefinitionError subclasses", where_u, nonide)
 
     # which attributes count as fields / variants: evaluated over an abstract attribute list (fields, a padding field, constants)
-    from ..absint import make_obj
-    from ..codec import isa_of
-    from ..fold import Sym, Unfoldable as _Unf
-
     comp = ctx.cls(SER + "_composite.CompositeType")
     F, P, Cn = (isa_of(ctx, SER + "_attribute." + n) for n in ("Field", "PaddingField", "Constant"))
     attrs = [Sym(_isa_=F, name="a"), Sym(_isa_=Cn, name="K"), Sym(_isa_=P, name=""), Sym(_isa_=F, name="b"), Sym(_isa_=Cn, name="L")]
@@ -406,32 +406,39 @@ def rule_r7_union_extent(ctx: Ctx) -> None:
         shown = [getattr(x, "name", "?") for x in got] if isinstance(got, list) else got
         ctx.check(shown == want_names and (not isinstance(got, list) or all(any(x is a for a in attrs) for x in got)), cls_.short + "." + prop, str(shown), "fields are exactly the attributes that are Field instances, in order (padding included); variants are the fields", cls_.module.relpath)
 
+    # delimited wrapper: extent region against inner types of known extent (a structure of one field of 0 / 8 / 16 / 24 bits)
     d = ctx.cls(SER + "_composite.DelimitedType")
     dinit = d.methods.get("__init__")
-    if dinit is None:
-        raise AnalysisError("DelimitedType.__init__ missing")
-    paths = paths_of(dinit.node)
-    ext_param = "extent"
-    if ext_param not in dinit.params or "inner" not in dinit.params:
-        raise AnalysisError("DelimitedType.__init__ signature changed: %s" % dinit.params)
-    dom = [{"x": x, "e": e} for x in (-8, 0, 1, 7, 8, 9, 15, 16, 17, 24, 64) for e in (0, 8, 16, 24)]
-    res = evaluate_region(
-        paths,
-        dom,
-        lambda cond: (not isinstance(cond, tuple)) and mentions(cond, ["extent", "self._extent"]) ,
-        lambda v: Folder({"extent": v["x"], "inner.extent": v["e"], "self.alignment_requirement": 8, "self._inner.extent": v["e"], "self.inner_type.extent": v["e"]}, repo, dinit.module, d),
-        None,
-        key=lambda v: (v["x"], v["e"]),
-    )
-    bad = [{"extent": k[0], "inner_extent": k[1], "found": acc} for k, acc in res.accepted.items() if acc != (k[0] % 8 == 0 and k[0] >= k[1])]
-    ctx.count(len(dom))
-    ctx.check(not bad, dinit.short, "extent region", "extent accepted iff a multiple of the alignment (8) and not smaller than the inner type's extent", dinit.where(), bad[:6])
-    nonide = sorted({ex for k, acc in res.accepted.items() if not acc for ex in res.raised[k] if not _raises_ide(ctx, dinit, ast.parse(ex, mode="eval").body)})
-    ctx.check(not nonide, dinit.short, "rejection class", "rejections must be InvalidDefinitionError subclasses", dinit.where(), nonide)
-    e = trivial_property_expr(repo, d, "extent")
-    ctx.check(e is not None and norm(e) == "self._extent", d.short + ".extent", norm(e) if e is not None else "?", "a delimited type reports the declared extent", d.module.relpath)
-    e = trivial_property_expr(repo, comp, "extent")
-    ctx.check(e is not None and norm(e) == "self.bit_length_set.max", comp.short + ".extent", norm(e) if e is not None else "?", "a sealed composite's extent is its longest representation", comp.module.relpath)
+    where_d = dinit.where() if dinit else d.module.relpath
+    rejected = set()
+    bad = []
+    declared = {}
+    for e in (0, 8, 16, 24):
+        inner = M.structure(ctx, attributes=[M.attribute_sym(ctx, "Field", "x", bits=e)] if e else [])
+        if isinstance(inner, str):
+            raise AnalysisError("a structure with one %d-bit field cannot be constructed over abstract arguments: %s" % (e, inner))
+        ie = _prop(ctx, inner, "extent")
+        if ie != e:
+            raise AnalysisError("the abstract inner structure reports extent %r, expected %d" % (ie, e))
+        for x in (-8, 0, 1, 7, 8, 9, 15, 16, 17, 24, 64):
+            o = M.build_model(ctx, SER + "_composite.DelimitedType", inner=inner, extent=x)
+            acc = not isinstance(o, str)
+            ctx.count()
+            if not acc:
+                rejected.add(o)
+            else:
+                declared[(x, e)] = _prop(ctx, o, "extent")
+            if acc != (x % 8 == 0 and x >= e):
+                bad.append({"extent": x, "inner_extent": e, "found": "accepted" if acc else "rejected (%s)" % o})
+    ctx.check(not bad, d.short + ".__init__", "extent region", "extent accepted iff a multiple of the alignment (8) and not smaller than the inner type's extent", where_d, bad[:6])
+    nonide = sorted(x for x in rejected if not M._ide_name(ctx, x))
+    ctx.check(not nonide, d.short + ".__init__", "rejection class", "rejections must be InvalidDefinitionError subclasses", where_d, nonide)
+    wrong = {k: v for k, v in declared.items() if v != k[0]}
+    ctx.check(not wrong, d.short + ".extent", "declared extent reported for %d accepted wrappers" % len(declared), "a delimited type reports the declared extent", d.module.relpath, wrong)
+    # a sealed composite's extent is its longest representation
+    two = M.structure(ctx, attributes=[M.attribute_sym(ctx, "Field", "a", bits=8), M.attribute_sym(ctx, "Field", "b", bits=24)])
+    got = None if isinstance(two, str) else (_prop(ctx, two, "extent"), _prop(ctx, two, "bit_length_set"))
+    ctx.check(got is not None and got[0] == 32 and got[0] == getattr(got[1], "max", None), comp.short + ".extent", "extent of {uint8, uint24} = %s" % (got[0] if got else two), "a sealed composite's extent is its longest representation", comp.module.relpath)
 
 
 # ---------------------------------------------------------------------------------------------------- R8 directives
